@@ -1,4 +1,5 @@
 """Event plane: strace logs of real runs -> NDJSON records for the contract monitor Trace_Ev."""
+from .common import rmtree as _rmtree
 import os
 from . import s2e, tlc
 from .common import ToolError
@@ -94,7 +95,7 @@ def traced_tree_run(binary, sc, driver, run_id, cfg, plan=None, workers=None, sp
     srcs = src_prefixes or sorted({a["norm"][0] for a in sc["sources"] if a["norm"] and a["norm"][0] not in (".", "/ABS")} or {"s"})
     recs, n = records(run_id, o["_run"]["trace"], o["_run"]["root"], srcs, list(dst_prefixes), cfg, o["exit"], protected=protected,
                       special=special, peak_base=peak_base, fd_slack=fd_slack)
-    shutil.rmtree(o["_run"]["root"], ignore_errors=True)
+    _rmtree(o["_run"]["root"])
     try:
         os.unlink(o["_run"]["trace"])
     except OSError:
